@@ -28,6 +28,32 @@ Theorem C01_next_is_applicable : forall sub hasm chk fresh ms k caller i,
 Proof. exact next_run_applicable. Qed.
 Print Assumptions C01_next_is_applicable.
 
+(* joined with C13: every argument whose run-time type is a plain class lies in the DOCUMENTED MEANING (Spec/Denot.v:
+   some union arm / all intersection arms / exactly / proper subclass / has method / predicate / bound of a value type)
+   of the type the selected method declares at that position or name -- for the direct call and the continuation *)
+From OvldV Require Import Spec.Denot Proofs.ResolveMeaning.
+Theorem C01_run_args_in_meaning : forall sub hasm chk fresh, (forall c, sub c c = true) -> forall ms k i,
+  lookup sub hasm chk fresh ms k = ORun i ->
+  exists m, In m ms /\ m_id m = i /\
+    forall s c, In (s, Cls c) (key_slots k) -> exists t, slot_ty m s = Some t /\ denot sub hasm chk t c = true.
+Proof. exact run_args_in_meaning. Qed.
+Print Assumptions C01_run_args_in_meaning.
+
+Theorem C01_next_args_in_meaning : forall sub hasm chk fresh, (forall c, sub c c = true) -> forall ms k caller i,
+  lookup_next sub hasm chk fresh ms caller k = ORun i ->
+  exists m, In m ms /\ m_id m = i /\
+    forall s c, In (s, Cls c) (key_slots k) -> exists t, slot_ty m s = Some t /\ denot sub hasm chk t c = true.
+Proof. exact next_args_in_meaning. Qed.
+Print Assumptions C01_next_args_in_meaning.
+
+(* classes: 0 object, 1 A, 2 A' (subclass of A), 3 B.  f(x: A | B), f(x: object): A' runs the union method *)
+From OvldV Require Import Model.TyDom Model.Codec.
+Example C01_meaning_nonvacuous :
+  let wh := {| h_supers := [[0]; [0; 1]; [0; 1; 2]; [0; 3]]; h_meths := []; h_preds := []; h_fresh := [0] |} in
+  lookup (hsub wh) (hhasm wh) (hchk wh) (hfresh wh)
+    [mkMeth 0 [Uni [Cls 1; Cls 3]] [] 1 [] 0 0; mkMeth 1 [Cls 0] [] 1 [] 0 0] (mkKey [Cls 2] []) = ORun 0.
+Proof. vm_compute. reflexivity. Qed.
+
 (* value level: a handler selected by a value-dependent rank has all its generated checks true, and a generated check is
    isinstance (Props/C10.v: C10_chain_sound, C10_count_sound, C10_emit_is_instance) *)
 From OvldV Require Import Model.Dep Proofs.DepFacts.
